@@ -43,9 +43,17 @@ pub struct FileAppender {
 
 impl Append for FileAppender {
     fn append(&self, record: &Record) -> anyhow::Result<()> {
+        #[cfg(feature = "verif_hooks")]
+        crate::verif::before_lock("file.lock", &|| self.file.is_locked());
         let mut file = self.file.lock();
+        #[cfg(feature = "verif_hooks")]
+        crate::verif::point("file.locked");
         self.encoder.encode(&mut *file, record)?;
+        #[cfg(feature = "verif_hooks")]
+        crate::verif::point("file.encoded");
         file.flush()?;
+        #[cfg(feature = "verif_hooks")]
+        crate::verif::point("file.flushed");
         Ok(())
     }
 
